@@ -19,6 +19,7 @@ From Coq Require Import String List Bool NArith Lia.
 Import ListNotations.
 From Omega Require Import L6Past.PastSyntax L6Past.PastModel L6Past.PastSpec
   L6Past.PastProofs L6Past.PastUntil L6Past.PastUntilProofs
+  L6Past.PastUntilClassical
   L6Past.PastCheck L6Past.PastFast L6Past.PastFastProofs.
 Open Scope string_scope.
 
@@ -187,7 +188,7 @@ Proof. split; reflexivity. Qed.
    (past operators, [] <> U): over an infinite sequence, with the recurrence
    goals `win` holding infinitely often, exactly one solution, and under it
    the translated formula is equivalent to the original at every position. *)
-Definition C15_until_full : Prop :=
+Theorem C15_until_full :
   forall f : form,
   let X := translate true true f in
   no_clash f (x_names X) ->
@@ -199,12 +200,14 @@ Definition C15_until_full : Prop :=
     (forall alpha', is_solution_inf X sigma alpha' ->
        forall i, eval (comb (x_names X) sigma alpha' i) (x_formula X) = true
                  <-> holds f sigma i).
+Proof. exact translate_until_full. Qed.
+(* C15_until_full depends on the standard-library axioms Classical_Prop.classic
+   and Description.constructive_definite_description (truth of [] <> U on an
+   arbitrary infinite sequence as a Boolean); see Print Assumptions below. *)
 
-(* Proved part: uniqueness and correctness of every fair solution, and that
-   the values of the tracked formulas form a fair solution.  What is missing
-   for C15_until_full is only that those values exist as a Boolean sequence
-   for EVERY sigma (truth of [] <> U on an arbitrary infinite sequence is not
-   decidable; it would need excluded middle and unique choice). *)
+(* Axiom-free part: uniqueness and correctness of every fair solution, and that
+   the values of the tracked formulas form a fair solution; existence on every
+   sequence whose semantics is decidable. *)
 Theorem C15_until_partial : forall f : form,
   let X := translate true true f in
   no_clash f (x_names X) ->
@@ -281,6 +284,7 @@ Print Assumptions C15_testers_track.
 Print Assumptions C15_sem_declarative.
 Print Assumptions C15_generated_names_distinct.
 Print Assumptions C15_until_flag_irrelevant.
+Print Assumptions C15_until_full.
 Print Assumptions C15_until_partial.
 Print Assumptions C15_until_partial_exists.
 Print Assumptions C15_check_fast_is_plain.
